@@ -50,7 +50,9 @@ def canon(o, cross_format=False):
     o = fix(o)
     if cross_format and o.get("outcome") == "err":
         o = {"outcome": "err"}
-    if "warnings" in o and isinstance(o["warnings"], list):
+    if cross_format and "warnings" in o and isinstance(o["warnings"], list):
+        # within one format the ORDER of the diagnostics is part of the result (it is the order of the
+        # generated `w0, w1, ..` functions); across formats only the multiset is compared
         o["warnings"] = sorted(json.dumps(w, sort_keys=True) for w in o["warnings"])
     return json.dumps(o, sort_keys=True, ensure_ascii=False)
 
@@ -69,7 +71,10 @@ def run(tier, seed, replay=None):
     n = 150 if tier == "quick" else 2500
     nperm = 3 if tier == "quick" else 5
     cfg = GenCfg(p_fk=0.25, p_surplus=0.3, p_absent=0.15, p_null=0.1, p_inherits=0.5)
-    projs = [projects.gen_valid_project(rng, cfg) for _ in range(n)]
+    projs = [projects.gen_valid_project(rng, cfg) for _ in range(n - n // 4)]
+    # a plural-heavy quarter: several plural groups per level (many emit unused-form diagnostics, whose order is observable)
+    pcfg = GenCfg(p_fk=0.1, p_plural=0.5, p_range=0.05, p_surplus=0.3, n_keys=(5, 10), locale_pool=["en", "fr", "ja", "de", "ru", "ar"])
+    projs += [projects.gen_valid_project(rng, pcfg) for _ in range(n // 4)]
     # reference materialisation (JSON), keeping the plain data so that variants hold the same logical content
     ref_dirs, plains = workload.materialise(projs, "c10-ref", seed=seed)
     ref = workload.run_projects(ref_dirs, "json")
